@@ -191,6 +191,17 @@ impl PacketTrait for Packet {
             Self::GnupgAeadData(p) => p.packet_header(),
         }
     }
+
+    // The `Serialize` implementation of `Packet` already writes the packet header (it delegates
+    // to the `*_with_header` methods of the individual packets), so the provided methods of this
+    // trait would wrap the serialized packet into a second header.
+    fn to_writer_with_header<W: io::Write>(&self, writer: &mut W) -> Result<()> {
+        self.to_writer(writer)
+    }
+
+    fn write_len_with_header(&self) -> usize {
+        self.write_len()
+    }
 }
 
 impl<'a, T: 'a + PacketTrait> PacketTrait for &'a T {
